@@ -34,6 +34,10 @@ def run(ctx):
     for site in ("facebook", "twitter", "instagram", "telegram"):
         site_languages(ctx, "R2", site, spec[site])
     tries(ctx, "R3")
+    ctx.rule("R4", "shared parsing helper: safe_urlsplit prepends a scheme exactly when PROTOCOL_RE does not match the string (every scheme-less spelling gets its host); SPECIAL_HOSTS_RE is confined to localhost / IP literals")
+    from .common_url import rule_safe_urlsplit, rule_special_hosts
+    rule_safe_urlsplit(ctx, "R4")
+    rule_special_hosts(ctx, "R4")
 
 
 # ----------------------------------------------------------------------
